@@ -122,7 +122,12 @@ Expected(op, D) ==
          LET val(x) == (CASE x = "null" -> Nul [] x = "one" -> N(1) [] x = "two" -> N(2) [] x = "sx" -> S("x")) IN
          {RDoc(A([j \in 1..Len(op.elems) |-> val(op.elems[j])]))}
          \cup (IF "C11.array_construct_mixed_rejected" \in D /\ \E j \in 1..Len(op.elems) : op.elems[j] = "sx" THEN {RErr} ELSE {})
-    [] op.fn = "split" -> {RDoc(A([j \in 1..Len(op.parts) |-> S(op.parts[j])]))}
+    [] op.fn = "split" -> {RDoc(A([j \in 1..Len(op.parts) |-> S(op.parts[j])]))}      \* whatever the (non-empty) separator is
+    [] op.fn = "consof" ->   \* a constructor around an extraction, then converted: the extracted VALUE goes in, whatever surrounds it
+         LET d == GetPath(Docs[op.doc], op.path) IN
+         {RDoc(IF op.cons = "object" THEN O(<< <<"n", d>> >>) ELSE A(<<d>>))}
+    [] op.fn = "reparse" ->  \* a document that holds another document as TEXT: PARSE_JSON(v:payload::varchar):<key>::<type>
+         {IF op.key = "id" THEN RNum(7) ELSE RTxt("it is")}
     [] op.fn = "tryparse" -> IF op.good THEN {RDoc(D3)} ELSE {RNull}
 
 Steps(st, op, D) == {R(st, o) : o \in Expected(op, D)}
@@ -156,7 +161,13 @@ Cases ==
   \cup {o \in [fn : {"objcons"}, pairs : SeqsUpTo({<<"a", "one">>, <<"b", "null">>, <<"c", "sx">>, <<"d", "true">>, <<"e", "pnn">>, <<"f", "iffc">>}, 3), keep : BOOLEAN] :
           \A x, y \in 1..Len(o.pairs) : x # y => o.pairs[x][1] # o.pairs[y][1]}
   \cup [fn : {"arrcons"}, elems : SeqsUpTo({"one", "two", "sx"}, 2), form : {"function", "literal"}]
-  \cup [fn : {"split"}, parts : {<<"a">>, <<"a", "b">>, <<"a", "", "b">>}]
+  \cup [fn : {"split"}, parts : {<<"a">>, <<"a", "b">>, <<"a", "", "b">>}, sep : {"comma", "blank", "commablank", "twoblanks"}]
+  \cup UNION {{o \in [fn : {"consof"}, doc : {j}, path : PathsOf(j), cons : {"object", "array"}, cast : {"none", "varchar", "variant"}, src : {"col", "lit"}] :
+                   /\ o.path # <<>> /\ StepKind(o.path[1]) = "k" /\ ~IsNullish(GetPath(Docs[j], o.path))
+                   \* (an ARRAY_CONSTRUCT result that is not converted reaches Python as a list of JSON texts: how ARRAY values are
+                   \*  represented is C01's subject, the document is judged here once it is converted)
+                   /\ ~(o.cons = "array" /\ o.cast = "none")} : j \in {1, 3, 6}}
+  \cup [fn : {"reparse"}, key : {"id", "t"}, src : {"col", "lit"}, via : {"parse_json", "try_parse_json"}]
   \cup [fn : {"tryparse"}, good : BOOLEAN]
 Ops(st) == Cases
 
@@ -167,6 +178,6 @@ StepOk(st, op, r) ==
   /\ (op.fn = "get" /\ op.cast = "varchar" /\ GetPath(Docs[op.doc], op.path).k = "str" => r.obs.res = "txt")
   /\ (op.fn = "get" /\ IsNullish(GetPath(Docs[op.doc], op.path)) => r.obs.res = "null")
   /\ (op.fn = "arraysize" /\ GetPath(Docs[op.doc], op.path).k = "arr" => r.obs.res = "num")
-  /\ (op.fn \in {"oper", "flatten", "arrcons", "objcons"} => r.obs.res # "err")
+  /\ (op.fn \in {"oper", "flatten", "arrcons", "objcons", "consof", "reparse", "split"} => r.obs.res # "err")
   /\ (op.fn = "objcons" /\ ~op.keep => \A j \in 1..Len(r.obs.doc.v) : r.obs.doc.v[j][2].k # "null")
 =============================================================================
